@@ -58,12 +58,30 @@ func emitD(b []byte) {
 		return
 	}
 	res, p := decode(b)
+	// A packet decoded earlier must not change when another datagram is decoded
+	// (its byte-slice fields may alias the receive buffer): re-pack the packet
+	// held from the previous successful decode again, now.
+	if held != nil {
+		if now := repack(held); now != heldPacked {
+			fmt.Fprintf(out, "A %s ALIAS %s / %s\n", heldRaw, heldPacked, now)
+		}
+		held = nil
+	}
 	if p != nil {
-		fmt.Fprintf(out, "D %s %s / %s\n", vh.Hex(b), res, repack(p))
+		rp := repack(p)
+		fmt.Fprintf(out, "D %s %s / %s\n", vh.Hex(b), res, rp)
+		held, heldRaw, heldPacked = p, vh.Hex(b), rp
 	} else {
 		fmt.Fprintf(out, "D %s %s\n", vh.Hex(b), res)
 	}
 }
+
+// the packet of the previous successful decode, its datagram and what it packed to then
+var (
+	held       pkts.Packet
+	heldRaw    string
+	heldPacked string
+)
 
 type emptyReader struct{}
 
